@@ -1,5 +1,9 @@
 import CollectionsC.Proofs.PTreeWF
 import CollectionsC.Proofs.PTreeInsertLoop
+import CollectionsC.Proofs.PTreeAdd
+import CollectionsC.Proofs.PTreeRemove
+import CollectionsC.Proofs.PTreeWfB
+import CollectionsC.Proofs.PTreeDeleteStepR
 /-! # C03 / C17 — the pointer level of `cc_treetable.c`
 
 `Model/PTree.lean` is the tree as the C code sees it: a heap of nodes `{ key, value, color, left, right,
@@ -9,42 +13,67 @@ parent }` addressed by ids, the shared sentinel (id 0, a real node whose `parent
 `rebalance_after_delete`, `remove / remove_first / remove_last / remove_all` and the iterator (two node
 ids) are pointer surgery, assignment by assignment in the order of the C text.
 
-**Proved here** (for every heap, every tree, every position; no assumption on keys or colours):
-* the representation predicate `Represents st t` (`t` an id-annotated tree): `root`, all child pointers,
-  **all parent pointers**, keys, values, colours, pairwise distinct nodes, black sentinel, `size`;
-  `toTree st` is then `t` without the ids — the inductive tree of `Model/TreeTable.lean`;
-* `rotate_left` / `rotate_right` at any node with the required child: well-formedness is preserved
-  (the re-parenting lines, the parent's child pointer or `table->root`, the untouched sentinel) and
-  `toTree` commutes with the rotation of the inductive tree at that position;
-* `transplant(u, v)`: the heap represents the tree with `v`'s subtree in `u`'s place, `v->parent` is `u`'s
-  parent also when `v` is the sentinel (the scratch value `rebalance_after_delete` will read);
-* `tree_min`, `tree_max`, `get_successor_node`, `get_predecessor_node` on the heap (parent-pointer climb)
-  arrive at the node the path-based walks of the inductive model name — hence, by
-  `C03.successor_walk_is_inorder`, at the in-order neighbours.
+`Represents st t` (`t` an id-annotated tree): `root`, all child pointers, **all parent pointers**, keys,
+values, colours, pairwise distinct nodes, the sentinel black with zero key/value/`left`/`right` (its
+`parent` is *not* pinned: it is scratch space), `size`, allocation serial.  `toTree st` is then `t` without
+the ids — the inductive tree of `Model/TreeTable.lean`.  `WF st := ∃ t, Represents st t`.
 
-* `rebalance_after_insert`: every iteration of the `while` loop, in each of its six cases (uncle red;
-  uncle black with `z` an outer / an inner child; both sides), turns a heap that represents `T` into one
-  that represents `T` with **the inductive fix-up `Tree.fixInsLeft` / `fixInsRight` applied at the
-  grandparent** (`fixup_case*`), and the loop as a whole — with the final `root->color = BLACK` — keeps
-  `Represents`, the node set and the in-order content (`rebalance_after_insert_wf`).
+**Proved here** (for every heap, every tree, every position):
+* primitives: `rotate_left` / `rotate_right` (well-formedness kept, `toTree` commutes with the rotation of the
+  inductive tree, sentinel not written), `transplant(u, v)` (incl. `v` = sentinel: its `parent` becomes the
+  scratch value read later), `tree_min`, `tree_max`, successor / predecessor by parent-pointer climb = the
+  path-based walks of the inductive model (hence, by `C03.successor_walk_is_inorder`, the in-order
+  neighbours), the iterator's saved successor *node*.
+* **`cc_treetable_add` end to end** (`add_wf`): from `Represents st t`, search order and red-black rules (`BST`,
+  `RB` of `t.erase`, comparator a total order), `add` with a granted allocation yields a heap that
+  `Represents` some `t'` with in-order content `OrdMap.insert`, `RB` (rules, black root) and `BST` again.
+  Standalone pieces: the descent loop (`add_descent`), existing key = one write to the value field, nothing
+  else changes (`add_existing_key`), linking the fresh red leaf with sentinel children and its parent
+  pointer (`link_leaf`), first key (`add_first_key`), the loop invariant "the only red-red violation is at
+  `z`'s parent" (`Tree.Infra`; established by the link: `link_establishes_invariant`, kept by every
+  iteration: `fixup_keeps_invariant`), the six pointer-level case steps = the inductive fix-up at the
+  grandparent (`fixup_case*`), and the loop with the final `root->color = BLACK` **restoring `RB`**
+  (`rebalance_after_insert_rb`; this is what distinguishes the real loop from a no-op and shows that the
+  fuel `size + 2` is enough: a loop that stopped early would leave the violation).
+  `rebalance_after_insert_wf` is the weaker, assumption-free preservation statement.
+* **well-formedness is an invariant of `add`** without any assumption on comparator, order or balance
+  (`add_represents`, `adds_wf`: every state reached from `new` by granted or refused `add`s is `WF`).
+* **refusal** (`add_refused_unchanged`): absent key + refused node allocation ⇒ `add` returns the state itself.
+* **`remove_node`, the splice** (everything before `rebalance_after_delete`), in the three structural cases
+  (`remove_no_left_child`, `remove_no_right_child`, `remove_two_children_successor_is_child`,
+  `remove_two_children_successor_deeper` — the successor *node* is re-linked: both `transplant`s, the adopted
+  subtrees, colour): the heap holds (`Holds` = `Represents` minus the `size`/serial bookkeeping that
+  `remove_node` settles at its end) the tree with the node spliced out, all parent pointers included;
+  `x->parent` is the right node **also when `x` is the sentinel**; the colour handed to the fix-up; exactly
+  the nodes ≠ `z` remain (`remove_splice`: an iterator's saved `next` stays a tree node); in-order content
+  = `OrdMap.erase`.  When a red node leaves (no fix-up) `remove_node` is proved end to end
+  (`remove_node_no_fixup`: `Represents`, nodes, content, `size`, freed `z`).
+* **`rebalance_after_delete`, one iteration**: the loop body is the composition of its C-text pieces
+  (`delete_iteration_left/right`); each of the four cases on both sides is a single-step lemma on `At`
+  (`delete_fixup_case1..4_left/right`, with the `_skip` lemmas for the tests that fail), keeping
+  `x->parent` for a sentinel `x`.
+* `wfB_sound`: the Bool check the driver evaluates after every call (flag `inv`) implies `WF`.
 
 **Not proved, compared by the harness only**:
-* `cc_treetable_add` end to end.  What remains: (a) the descent + linking of the new red node (heap
-  `addDescent`, `fresh`) represents the tree with a red leaf at the descent position; (b) the purely
-  inductive fact that running the case steps bottom-up along the path (stopping at the first black
-  parent) equals the structurally recursive `Tree.ins` with its fix-up at every ancestor — true under
-  the red-black invariant because the fix-up is the identity where no red node has a red child; the
-  premises the case lemmas take (`z` red, its sibling black, uncle colour) are what that invariant gives.
-* `remove_node` with `rebalance_after_delete` against `Tree.del` (and `Represents` through them).
-These functions *are* in the pointer-level model and executable: the Lean driver runs it alongside the
-inductive model on every history, checks `toTree` = the inductive tree after every call (flag `inv`), and
-prints the tree from the pointer-level heap with node ids and parent ids (`#id^parent`), which the
-correspondence check compares with the ids and `parent` fields of the C heap (L3) — for insertions,
-deletions (all CLRS cases, the two-child re-linking of the successor *node*, the sentinel's parent) and
-iterator removal alike. -/
+* the `rebalance_after_delete` *loop* (termination with adequate fuel, `Represents` and `RB` at its end) and
+  hence `remove_node` end to end when a black node leaves; `remove`, `remove_first/last`, `remove_all`,
+  `findLoop`, the iterator's `remove` at the pointer level.  The single-step lemmas are stated for
+  `Represents`; the intermediate states of `remove_node` satisfy `Holds` (`size` is decremented last) — the
+  loop does not read `size`, the glue lemma is not written.
+* `T'` of `rebalance_after_insert_rb` is not identified with `Tree.ins` of the inductive model (only: same
+  nodes, same in-order content, `RB`); C17's height/comparison bounds stay with `Proofs/TreeTableRB*` on the
+  inductive model and the runtime check `toTree pt = inductive tree`.
+* The model totalises `Heap.get`: a dead id reads as a zero node, there is no fault flag.  `wfB` checks at
+  run time that every tree node and the sentinel are live heap entries.
+The driver runs the pointer-level model alongside the inductive one on every history, checks after every
+call `toTree` = the inductive tree, `size`, and `wfB` (flag `inv`), and prints the tree from the pointer-level
+heap with node ids and parent ids (`#id^parent`), which the correspondence check compares with the ids and
+`parent` fields of the C heap (L3).  The sentinel's `parent` is *not* printed on either side; it is covered
+only through its effect on the next `rebalance_after_delete` (and by the splice theorems above). -/
 namespace CC.Properties.C03PTree
 open CC CC.PTree
 open CC.Tree (Path Dir)
+open Spec Spec.OrdMap
 
 /-- the constructor's heap is well-formed and represents the empty tree -/
 theorem new_wf : Represents PTree.new .nil ∧ toTree PTree.new = .nil :=
@@ -75,6 +104,11 @@ theorem rotations_keep_sentinel (st : PT) (t : ITree) (h : Represents st t) (q :
     (rotateLeft st x).heap.get 0 = st.heap.get 0 ∧ (rotateLeft st x).size = st.size :=
   let r := rotateLeft_rep h.rep h.root h.nodup q hs
   ⟨r.2.2.1, r.2.2.2.1⟩
+theorem rotate_right_keeps_sentinel (st : PT) (t : ITree) (h : Represents st t) (q : Path)
+    {x cx a kx vx y cy b ky vy c} (hs : t.subtree q = .node x cx (.node y cy a ky vy b) kx vx c) :
+    (rotateRight st x).heap.get 0 = st.heap.get 0 ∧ (rotateRight st x).size = st.size :=
+  let r := rotateRight_rep h.rep h.root h.nodup q hs
+  ⟨r.2.2.1, r.2.2.2.1⟩
 
 /-- **`transplant(table, u, v)`** with `v` the root of a part `s'` of `u`'s subtree (or the sentinel): the
 heap represents the tree with `s'` in the place of `u`'s subtree; `root` follows; the sentinel's `parent`
@@ -88,9 +122,12 @@ theorem transplant_commutes (st : PT) (t : ITree) (h : Represents st t) (q : Pat
       Tree.replaceAt (toTree st) q s'.erase ∧
     (transplant st u s'.rid).heap.get 0 =
       (if s'.rid = 0 then { st.heap.get 0 with parent := parentAt t 0 q } else st.heap.get 0) ∧
-    (transplant st u s'.rid).heap.get u = st.heap.get u := by
+    (transplant st u s'.rid).heap.get u = st.heap.get u ∧
+    (t.replace q s').ids.Nodup ∧ (∀ i ∈ (t.replace q s').ids, i ∈ t.ids) := by
   obtain ⟨a, b, c, d, _, _⟩ := transplant_rep h.rep h.root h.nodup q hs s' p' hs' hnd' hin
-  refine ⟨a, b, ?_, c, d⟩
+  have hnn := ITree.ids_replace_nodup t q s' h.nodup hnd' (by
+    intro i hi; rw [hs]; rcases hin i hi with e | e <;> simp [e])
+  refine ⟨a, b, ?_, c, d, hnn.1, hnn.2⟩
   rw [b, toTreeF_rep a _ (Nat.lt_succ_self _), ITree.erase_replace, h.toTree]
 
 /-- **`get_successor_node` / `get_predecessor_node`** with their parent-pointer climb arrive at the nodes the
@@ -175,32 +212,38 @@ theorem fixup_case1_right (st : PT) (T : ITree) (g : Path) (gi : Nat) (cg : Colo
     (d2 : Dir) (z : Nat) (zl : ITree) (zk zv : Nat) (zr : ITree)
     (hz : (ITree.node p .red pl pk pv pr).subtree [d2] = .node z .red zl zk zv zr) (f : Nat) :
     ∃ st', rebalInsertLoop (f + 1) st z = rebalInsertLoop f st' gi ∧
-      At st' T g (ITree.fixInsRight (.node gi cg (.node yi .red yl yk yv yr) kg vg (.node p .red pl pk pv pr))) := by
+      At st' T g (ITree.fixInsRight (.node gi cg (.node yi .red yl yk yv yr) kg vg (.node p .red pl pk pv pr))) ∧
+      toTree st' = Tree.replaceAt T.erase g
+        (Tree.fixInsRight (ITree.node gi cg (.node yi .red yl yk yv yr) kg vg (.node p .red pl pk pv pr)).erase) := by
   obtain ⟨st', e, hA⟩ := insert_step_R_case1 h d2 hz f
   have hc : pl.col = .red ∨ pr.col = .red := by
     cases d2 with
     | L => left; simp only [ITree.subtree_L, ITree.subtree_root] at hz; rw [hz]; rfl
     | R => right; simp only [ITree.subtree_R, ITree.subtree_root] at hz; rw [hz]; rfl
   rw [← ITree.fixInsRight_case1 _ _ _ _ _ _ _ _ _ _ _ _ _ _ hc] at hA
-  exact ⟨st', e, hA⟩
+  exact ⟨st', e, hA, by rw [hA.toTree, ITree.erase_fixInsRight]⟩
 theorem fixup_case3_right (st : PT) (T : ITree) (g : Path) (gi : Nat) (cg : Colour) (p z : Nat) (zl : ITree)
     (zk zv : Nat) (zr : ITree) (pk pv : Nat) (pl : ITree) (kg vg : Nat) (Y : ITree)
     (h : At st T g (.node gi cg Y kg vg (.node p .red pl pk pv (.node z .red zl zk zv zr))))
     (hY : Y.col = .black) (f : Nat) :
     ∃ st', rebalInsertLoop (f + 1) st z = rebalInsertLoop f st' z ∧
-      At st' T g (ITree.fixInsRight (.node gi cg Y kg vg (.node p .red pl pk pv (.node z .red zl zk zv zr)))) := by
+      At st' T g (ITree.fixInsRight (.node gi cg Y kg vg (.node p .red pl pk pv (.node z .red zl zk zv zr)))) ∧
+      toTree st' = Tree.replaceAt T.erase g
+        (Tree.fixInsRight (ITree.node gi cg Y kg vg (.node p .red pl pk pv (.node z .red zl zk zv zr))).erase) := by
   obtain ⟨st', e, hA⟩ := insert_step_R_case3 h hY f
   rw [← ITree.fixInsRight_case3 _ _ _ _ _ _ _ _ _ _ _ _ _ _ hY] at hA
-  exact ⟨st', e, hA⟩
+  exact ⟨st', e, hA, by rw [hA.toTree, ITree.erase_fixInsRight]⟩
 theorem fixup_case2_right (st : PT) (T : ITree) (g : Path) (gi : Nat) (cg : Colour) (p z : Nat) (zl : ITree)
     (zk zv : Nat) (zr : ITree) (pk pv : Nat) (pr : ITree) (kg vg : Nat) (Y : ITree)
     (h : At st T g (.node gi cg Y kg vg (.node p .red (.node z .red zl zk zv zr) pk pv pr)))
     (hY : Y.col = .black) (hs : pr.col = .black) (f : Nat) :
     ∃ st', rebalInsertLoop (f + 1) st z = rebalInsertLoop f st' p ∧
-      At st' T g (ITree.fixInsRight (.node gi cg Y kg vg (.node p .red (.node z .red zl zk zv zr) pk pv pr))) := by
+      At st' T g (ITree.fixInsRight (.node gi cg Y kg vg (.node p .red (.node z .red zl zk zv zr) pk pv pr))) ∧
+      toTree st' = Tree.replaceAt T.erase g
+        (Tree.fixInsRight (ITree.node gi cg Y kg vg (.node p .red (.node z .red zl zk zv zr) pk pv pr)).erase) := by
   obtain ⟨st', e, hA⟩ := insert_step_R_case2 h hY f
   rw [← ITree.fixInsRight_case2 _ _ _ _ _ _ _ _ _ _ _ _ _ _ hY hs] at hA
-  exact ⟨st', e, hA⟩
+  exact ⟨st', e, hA, by rw [hA.toTree, ITree.erase_fixInsRight]⟩
 
 /-- the id-annotated fix-ups are the inductive model's -/
 theorem fixups_erase (G : ITree) :
@@ -212,11 +255,505 @@ theorem fixups_erase (G : ITree) :
 a well-formed heap — child pointers, parent pointers, `root`, sentinel, `size` consistent — with the same
 nodes, the same in-order content and a black root -/
 theorem rebalance_after_insert_wf (st : PT) (T : ITree) (q : Path) (z : Nat) (zl : ITree) (zk zv : Nat) (zr : ITree)
-    (h : Represents st T) (hz : T.subtree q = .node z .red zl zk zv zr) (hroot : q = [] ∨ T.col = .black)
-    (hf : q.length ≤ st.size + 2) :
+    (h : Represents st T) (hz : T.subtree q = .node z .red zl zk zv zr) (hroot : q = [] ∨ T.col = .black) :
     ∃ T', Represents (rebalanceAfterInsert st z) T' ∧ (toTree (rebalanceAfterInsert st z)).toList = (toTree st).toList ∧
       T'.ids.Perm T.ids ∧ T'.col = .black := by
-  obtain ⟨T', a, b, c, d⟩ := rebalanceAfterInsert_wf st T q z zl zk zv zr h hz hroot hf
+  obtain ⟨T', a, b, c, d⟩ := rebalanceAfterInsert_wf st T q z zl zk zv zr h hz hroot
+    (h.fuel_ok q (by rw [hz]; simp))
   exact ⟨T', a, by rw [a.toTree, h.toTree, b], c, d⟩
+
+/-! ## `cc_treetable_add` end to end -/
+
+/-- **the descent loop** of `cc_treetable_add` (fuel `size + 1`, started at the root with `y` = sentinel)
+follows the comparator down the represented tree: it stops at the node whose key compares equal — returned
+as `x` — or falls off at an empty position and returns the node above it (the sentinel for the empty tree) -/
+theorem add_descent (cmp : Nat → Nat → Int) (st : PT) (T : ITree) (h : Represents st T) (k : Nat) :
+    addDescent cmp st.heap k (st.size + 1) S st.root =
+      match T.subtree (Tree.leafPath cmp k T.erase) with
+      | .node x _ _ _ _ _ => (x, x)
+      | .nil => (parentAt T 0 (Tree.leafPath cmp k T.erase), 0) :=
+  add_descent_eq cmp h k
+
+/-- **existing key**: `add` performs the single write `x->value = val` at the node found — every other
+field of every node, `root`, `size`, the allocation serial are unchanged (the result is `st` with that one
+heap write), whatever the allocator would answer; the heap represents the tree with the value replaced,
+whose content is the ordered-map insert, and rules and order are kept -/
+theorem add_existing_key (cmp : Nat → Nat → Int) (hto : TotalOrder cmp) (st : PT) (T : ITree)
+    (h : Represents st T) (hb : Tree.BST cmp T.erase) (hrb : Tree.RB T.erase) (k v : Nat) (ok : Bool)
+    {x c a k0 v0 b} (hs : T.subtree (Tree.leafPath cmp k T.erase) = .node x c a k0 v0 b) :
+    add cmp st k v ok = { st with heap := setValue st.heap x v } ∧
+    k0 = k ∧
+    Represents (add cmp st k v ok) (T.replace (Tree.leafPath cmp k T.erase) (.node x c a k v b)) ∧
+    (toTree (add cmp st k v ok)).toList = OrdMap.insert cmp (toTree st).toList k v ∧
+    Tree.RB (toTree (add cmp st k v ok)) ∧ Tree.BST cmp (toTree (add cmp st k v ok)) := by
+  obtain ⟨r1, r2, r3, r4, r5, r6⟩ := add_existing_wf cmp hto h hb hrb k v ok hs
+  exact ⟨r1, r2, r3, by rw [r3.toTree, h.toTree]; exact r4, by rw [r3.toTree]; exact r5,
+    by rw [r3.toTree]; exact r6⟩
+
+/-- **linking the fresh leaf** (new key, non-empty tree, before the fix-up): the heap after
+`new_node->… = …; if (cmp(key, y->key) < 0) y->left = new_node; else y->right = new_node; size++`
+represents the tree with a red leaf at the position found by the descent — the leaf's `left`/`right` are
+the sentinel, its `parent` is the node above, that node's child pointer on the side chosen by the comparator
+is the leaf, and nothing else changed (all of that is what `Represents` of the new tree says) -/
+theorem link_leaf (cmp : Nat → Nat → Int) (st : PT) (T : ITree) (h : Represents st T) (k v : Nat)
+    (hne : T ≠ .nil) (hn : T.subtree (Tree.leafPath cmp k T.erase) = .nil) :
+    Represents (linkLeaf cmp st k v (parentAt T 0 (Tree.leafPath cmp k T.erase)))
+      (T.replace (Tree.leafPath cmp k T.erase) (.node st.fresh .red .nil k v .nil)) ∧
+    (T.replace (Tree.leafPath cmp k T.erase) (.node st.fresh .red .nil k v .nil)).subtree
+      (Tree.leafPath cmp k T.erase) = .node st.fresh .red .nil k v .nil ∧
+    add cmp st k v true =
+      rebalanceAfterInsert (linkLeaf cmp st k v (parentAt T 0 (Tree.leafPath cmp k T.erase))) st.fresh := by
+  refine ⟨linkLeaf_represents cmp h k v hne hn, ITree.subtree_replace_valid T _ _ ?_, add_link cmp h k v hne hn⟩
+  rcases ITree.leafPath_parent cmp k T with e | ⟨q0, d, y, c, a, ky, vy, b, e, hs, hd⟩
+  · exact Or.inl e
+  · right; rw [e]; simp [hs]
+
+/-- **first key**: the fresh node becomes the black root with sentinel children and sentinel parent -/
+theorem add_first_key (cmp : Nat → Nat → Int) (st : PT) (h : Represents st .nil) (k v : Nat) :
+    Represents (add cmp st k v true) (.node st.fresh .black .nil k v .nil) :=
+  add_empty cmp h k v
+
+/-- **the fix-up loop restores the red-black rules** (pointer level): started at a red node `z` at position
+`q` of a represented tree that satisfies the rules everywhere except at the node above `z`
+(`Tree.Infra … q.dropLast`: that node may be red too), `rebalance_after_insert` ends in a heap representing
+a tree with the same nodes and in-order content that satisfies `RB` (rules and black root) -/
+theorem rebalance_after_insert_rb (st : PT) (T : ITree) (q : Path) (z : Nat) (zl : ITree) (zk zv : Nat) (zr : ITree)
+    (h : Represents st T) (hz : T.subtree q = .node z .red zl zk zv zr) (hroot : q = [] ∨ T.col = .black)
+    (hI : Tree.Infra T.erase q.dropLast) :
+    ∃ T', Represents (rebalanceAfterInsert st z) T' ∧ T'.erase.toList = T.erase.toList ∧ T'.ids.Perm T.ids ∧
+      Tree.RB T'.erase :=
+  rebalanceAfterInsert_rb st T q z zl zk zv zr h hz hroot hI (h.fuel_ok q (by rw [hz]; simp))
+
+/-- the loop invariant is established by the link: the tree with the red leaf satisfies the rules except
+at the leaf's parent; black height and root colour are those of the old tree -/
+theorem link_establishes_invariant (cmp : Nat → Nat → Int) (k v : Nat) (t : Tree) (hrb : Tree.RBok t)
+    (hne : t ≠ .nil) (hn : Tree.subtree t (Tree.leafPath cmp k t) = .nil) :
+    Tree.Infra (Tree.replaceAt t (Tree.leafPath cmp k t) (.node .red .nil k v .nil)) (Tree.leafPath cmp k t).dropLast ∧
+    Tree.bh (Tree.replaceAt t (Tree.leafPath cmp k t) (.node .red .nil k v .nil)) = Tree.bh t :=
+  ⟨(Tree.Infra_link k v t hrb hne hn).1, (Tree.Infra_link k v t hrb hne hn).2.1⟩
+
+/-- one iteration keeps the loop invariant: the fix-up at the grandparent position `g` moves the only
+possible red-red violation to the position above `g` (or removes it) and keeps the black height -/
+theorem fixup_keeps_invariant (g : Path) (d1 : Dir) (t : Tree) (h : Tree.Infra t (g ++ [d1]))
+    (hp : (Tree.subtree t (g ++ [d1])).col = .red) :
+    Tree.Infra (Tree.replaceAt t g (Tree.fixAt d1 (Tree.subtree t g))) g.dropLast ∧
+    Tree.bh (Tree.replaceAt t g (Tree.fixAt d1 (Tree.subtree t g))) = Tree.bh t :=
+  ⟨(Tree.fix_step g d1 h hp).1, (Tree.fix_step g d1 h hp).2.1⟩
+
+/-- **new key, allocation granted**: the result represents a tree made of the old nodes and the fresh one,
+its in-order content is the ordered-map insert, the red-black rules hold with a black root, keys in order -/
+theorem add_new_key (cmp : Nat → Nat → Int) (hto : TotalOrder cmp) (st : PT) (T : ITree)
+    (h : Represents st T) (hb : Tree.BST cmp T.erase) (hrb : Tree.RB T.erase) (k v : Nat)
+    (hn : T.subtree (Tree.leafPath cmp k T.erase) = .nil) :
+    ∃ T', Represents (add cmp st k v true) T' ∧ T'.ids.Perm (st.fresh :: T.ids) ∧
+      T'.erase.toList = OrdMap.insert cmp T.erase.toList k v ∧ Tree.RB T'.erase ∧ Tree.BST cmp T'.erase :=
+  add_new_wf cmp hto h hb hrb k v hn
+
+/-- **`cc_treetable_add` end to end** (allocation granted): from a heap that represents a red-black search
+tree, `add` yields a heap that represents one — child and parent pointers, `root`, sentinel, `size`
+consistent — whose in-order content is `OrdMap.insert` of the old content -/
+theorem add_wf (cmp : Nat → Nat → Int) (hto : TotalOrder cmp) (st : PT) (T : ITree)
+    (h : Represents st T) (hb : Tree.BST cmp T.erase) (hrb : Tree.RB T.erase) (k v : Nat) :
+    ∃ T', Represents (add cmp st k v true) T' ∧
+      (toTree (add cmp st k v true)).toList = OrdMap.insert cmp (toTree st).toList k v ∧
+      Tree.RB (toTree (add cmp st k v true)) ∧ Tree.BST cmp (toTree (add cmp st k v true)) := by
+  obtain ⟨T', r1, r2, r3, r4⟩ := PTree.add_wf cmp hto h hb hrb k v
+  exact ⟨T', r1, by rw [r1.toTree, h.toTree]; exact r2, by rw [r1.toTree]; exact r3, by rw [r1.toTree]; exact r4⟩
+
+/-- **refusal (C08 at the pointer level)**: for an absent key whose node allocation is refused, `add`
+returns the state itself — heap, `root`, `size`, allocation serial, hence the represented tree, unchanged -/
+theorem add_refused_unchanged (cmp : Nat → Nat → Int) (st : PT) (T : ITree) (h : Represents st T) (k v : Nat)
+    (hn : T.subtree (Tree.leafPath cmp k T.erase) = .nil) :
+    add cmp st k v false = st ∧ Represents (add cmp st k v false) T := by
+  rw [add_refused cmp h k v hn]; exact ⟨rfl, h⟩
+
+/-- **well-formedness is an invariant of `cc_treetable_add`** — no assumption on the comparator, on order or
+on balance, any allocator answer: from a heap that represents a tree with a black (or no) root, `add`
+yields such a heap again -/
+theorem add_represents (cmp : Nat → Nat → Int) (st : PT) (T : ITree) (h : Represents st T)
+    (hroot : T.col = .black) (k v : Nat) (ok : Bool) :
+    ∃ T', Represents (add cmp st k v ok) T' ∧ T'.col = .black :=
+  PTree.add_represents cmp h hroot k v ok
+
+/-- every state reached from the constructor by `add`s (granted or refused, any comparator) is well-formed -/
+theorem adds_wf (cmp : Nat → Nat → Int) (ops : List (Nat × Nat × Bool)) :
+    WF (ops.foldl (fun st o => add cmp st o.1 o.2.1 o.2.2) PTree.new) :=
+  PTree.adds_wf cmp ops
+
+/-- **the driver's runtime check is sound**: `wfB st = true` (flag `inv` of every M line) implies that the
+heap represents the id-annotated tree read off it — every parent pointer, the sentinel's fields, distinct
+nodes, `size`, allocation serial -/
+theorem wfB_sound (st : PT) (hw : wfB st = true) : WF st :=
+  ⟨_, PTree.wfB_sound st hw⟩
+
+/-! ## `remove_node`: the splice (everything before `rebalance_after_delete`)
+
+`removeSplice st z` is `remove_node` up to the fix-up; `remove_node_decomposes` is the remaining glue.
+`Holds` is `Represents` without the `size`/allocation-serial bookkeeping (`size--` and `mem_free(z)` come
+last in the C function; `z`'s record is still in the heap, untouched, outside the tree). -/
+
+/-- `remove_node` = splice, then `rebalance_after_delete(x)` if the colour that left is black, then
+`mem_free(z); size--` -/
+theorem remove_node_decomposes (st : PT) (z : Nat) :
+    removeNode st z =
+      (let r := removeSplice st z
+       let st' := if r.2.2 = .black then rebalanceAfterDelete r.1 r.2.1 else r.1
+       { st' with heap := st'.heap.del z, size := st'.size - 1 }) :=
+  removeNode_eq st z
+
+/-- **no left child** (`z->left == sentinel`): `transplant(z, z->right)`.  The heap holds the tree with
+`z`'s right subtree (possibly empty) in `z`'s place — all child and parent pointers; `x = z->right`, **also
+when it is the sentinel**, has the node above `z` as `parent`; the colour handed to the fix-up is `z`'s;
+the nodes are the old ones without `z`; the in-order content is the old one with `z`'s key erased -/
+theorem remove_no_left_child (cmp : Nat → Nat → Int) (hto : TotalOrder cmp) (st : PT) (T : ITree)
+    (h : Represents st T) (hb : Tree.BST cmp T.erase) (q : Path) {z cz zk zv zr}
+    (hs : T.subtree q = .node z cz .nil zk zv zr) :
+    removeSplice st z = (transplant st z zr.rid, zr.rid, cz) ∧
+    Holds (transplant st z zr.rid) (T.replace q zr) ∧
+    ((transplant st z zr.rid).heap.get zr.rid).parent = parentAt T 0 q ∧
+    (transplant st z zr.rid).heap.get z = st.heap.get z ∧
+    (z :: (T.replace q zr).ids).Perm T.ids ∧
+    (T.replace q zr).erase.toList = OrdMap.erase T.erase.toList zk := by
+  obtain ⟨a, b, c, d, e, f, _⟩ := splice_one_child cmp hto h.holds hb q hs zr (Or.inl ⟨rfl, rfl⟩)
+  exact ⟨a, b, c, d, e, f⟩
+
+/-- **no right child** (a left child, `z->right == sentinel`): `transplant(z, z->left)`, mirror image -/
+theorem remove_no_right_child (cmp : Nat → Nat → Int) (hto : TotalOrder cmp) (st : PT) (T : ITree)
+    (h : Represents st T) (hb : Tree.BST cmp T.erase) (q : Path) {z cz zl zk zv}
+    (hs : T.subtree q = .node z cz zl zk zv .nil) (hzl : zl ≠ .nil) :
+    removeSplice st z = (transplant st z zl.rid, zl.rid, cz) ∧
+    Holds (transplant st z zl.rid) (T.replace q zl) ∧
+    ((transplant st z zl.rid).heap.get zl.rid).parent = parentAt T 0 q ∧
+    (transplant st z zl.rid).heap.get z = st.heap.get z ∧
+    (z :: (T.replace q zl).ids).Perm T.ids ∧
+    (T.replace q zl).erase.toList = OrdMap.erase T.erase.toList zk := by
+  obtain ⟨a, b, c, d, e, f, _⟩ := splice_one_child cmp hto h.holds hb q hs zl (Or.inr ⟨hzl, rfl, rfl⟩)
+  exact ⟨a, b, c, d, e, f⟩
+
+/-- **two children, the successor is `z`'s right child** (`y->parent == z`): the successor *node* `y` is
+re-linked into `z`'s place with `z`'s colour and left subtree; `x = y->right` — also the sentinel — gets
+`parent = y` (the line `x->parent = y`); the colour handed to the fix-up is `y`'s old one -/
+theorem remove_two_children_successor_is_child (cmp : Nat → Nat → Int) (hto : TotalOrder cmp) (st : PT) (T : ITree)
+    (h : Represents st T) (hb : Tree.BST cmp T.erase) (q : Path) {z cz zl zk zv y cy yk yv yr}
+    (hs : T.subtree q = .node z cz zl zk zv (.node y cy .nil yk yv yr)) (hzl : zl ≠ .nil) :
+    (removeSplice st z).2 = (yr.rid, cy) ∧
+    Holds (removeSplice st z).1 (T.replace q (.node y cz zl yk yv yr)) ∧
+    ((removeSplice st z).1.heap.get yr.rid).parent = y ∧
+    (removeSplice st z).1.heap.get z = st.heap.get z ∧
+    (z :: (T.replace q (.node y cz zl yk yv yr)).ids).Perm T.ids ∧
+    (T.replace q (.node y cz zl yk yv yr)).erase.toList = OrdMap.erase T.erase.toList zk := by
+  obtain ⟨a, b, c, d, e, f, _⟩ := splice_succ_child cmp hto h.holds hb q hs hzl
+  exact ⟨a, b, c, d, e, f⟩
+
+/-- **two children, the successor lies deeper** (`y->parent != z`; `mp` = the `tree_min` path in the left
+subtree `rl` of `z`'s right child `rz`): `transplant(y, y->right)`, `y` adopts `rz`, `transplant(z, y)`,
+`y` adopts `z`'s left subtree and colour; `x = y->right` — also the sentinel — has `y`'s former parent as
+`parent` -/
+theorem remove_two_children_successor_deeper (cmp : Nat → Nat → Int) (hto : TotalOrder cmp) (st : PT) (T : ITree)
+    (h : Represents st T) (hb : Tree.BST cmp T.erase) (q : Path) {z cz zl zk zv rz crz rl rk rv rr}
+    (hs : T.subtree q = .node z cz zl zk zv (.node rz crz rl rk rv rr)) (hzl : zl ≠ .nil)
+    {y cy yk yv yr} (hy : rl.subtree (Tree.treeMinPath rl.erase) = .node y cy .nil yk yv yr) :
+    (removeSplice st z).2 = (yr.rid, cy) ∧
+    Holds (removeSplice st z).1
+      (T.replace q (.node y cz zl yk yv (.node rz crz (rl.replace (Tree.treeMinPath rl.erase) yr) rk rv rr))) ∧
+    ((removeSplice st z).1.heap.get yr.rid).parent = parentAt rl rz (Tree.treeMinPath rl.erase) ∧
+    (removeSplice st z).1.heap.get z = st.heap.get z ∧
+    (z :: (T.replace q (.node y cz zl yk yv (.node rz crz (rl.replace (Tree.treeMinPath rl.erase) yr) rk rv rr))).ids).Perm
+      T.ids ∧
+    (T.replace q (.node y cz zl yk yv (.node rz crz (rl.replace (Tree.treeMinPath rl.erase) yr) rk rv rr))).erase.toList =
+      OrdMap.erase T.erase.toList zk := by
+  have hfuel : (ITree.node rz crz rl rk rv rr).height ≤ st.size + 2 := by
+    have h1 := ITree.height_subtree_le T (q ++ [.R])
+    rw [ITree.subtree_append, hs] at h1
+    simp only [ITree.subtree_R, ITree.subtree_root] at h1
+    have h2 := ITree.height_le_ids T
+    rw [h.size]; omega
+  obtain ⟨a, b, c, d, e, f, _⟩ := splice_succ_deep cmp hto h.holds hb q hs hzl _ rfl hy hfuel
+  exact ⟨a, b, c, d, e, f⟩
+
+/-- **the splice, all cases together**: for every node `z` of a represented search tree the state before
+the fix-up holds a tree made of exactly the other nodes (every node id ≠ `z` stays in the tree — in the
+two-children case the successor *node* is re-linked, so an iterator's saved `next` stays a tree node) whose
+in-order content is the old one without `z`'s key; `z`'s record is untouched; `size` and the allocation
+serial are not yet changed -/
+theorem remove_splice (cmp : Nat → Nat → Int) (hto : TotalOrder cmp) (st : PT) (T : ITree)
+    (h : Represents st T) (hb : Tree.BST cmp T.erase) (q : Path) {z cz zl zk zv zr}
+    (hs : T.subtree q = .node z cz zl zk zv zr) :
+    ∃ T', Holds (removeSplice st z).1 T' ∧ (z :: T'.ids).Perm T.ids ∧ (∀ i ∈ T.ids, i ≠ z → i ∈ T'.ids) ∧
+      T'.erase.toList = OrdMap.erase T.erase.toList zk ∧
+      (removeSplice st z).1.heap.get z = st.heap.get z ∧
+      (removeSplice st z).1.size = st.size ∧ (removeSplice st z).1.fresh = st.fresh := by
+  obtain ⟨T', a, b, c, d, e, f⟩ := removeSplice_holds cmp hto h hb q hs
+  refine ⟨T', a, b, ?_, c, d, e, f⟩
+  intro i hi hne
+  have := b.symm.subset hi
+  simp only [List.mem_cons] at this
+  exact this.resolve_left hne
+
+/-- **`remove_node` end to end when a red node leaves the tree** (then `rebalance_after_delete` is not
+called): the result is well-formed, represents a tree of exactly the old nodes but `z`, content = erase -/
+theorem remove_node_no_fixup (cmp : Nat → Nat → Int) (hto : TotalOrder cmp) (st : PT) (T : ITree)
+    (h : Represents st T) (hb : Tree.BST cmp T.erase) (q : Path) {z cz zl zk zv zr}
+    (hs : T.subtree q = .node z cz zl zk zv zr) (hred : (removeSplice st z).2.2 = .red) :
+    ∃ T', Represents (removeNode st z) T' ∧ (z :: T'.ids).Perm T.ids ∧
+      (toTree (removeNode st z)).toList = OrdMap.erase (toTree st).toList zk := by
+  obtain ⟨T', a, b, c⟩ := removeNode_no_fixup cmp hto h hb q hs hred
+  exact ⟨T', a, b, by rw [a.toTree, h.toTree]; exact c⟩
+
+/-! ## `rebalance_after_delete`: one iteration, piece by piece
+
+`delCase1L/R`, `delCase3L/R`, `delCase4L/R` (Proofs/PTreeDeleteStep*.lean) are the pieces of the loop body of
+the C text; `delete_iteration_left/right` say that an iteration *is* their composition (with the case-2
+test in between).  Each case lemma turns a heap that represents `T` with the subtree `G` at the parent's
+position `g` (`At st T g G`) into one that represents `T` with the recoloured / rotated subtree, and keeps
+`x->parent` — `x` may be the sentinel, whose `parent` field is the scratch value written by `transplant`
+(hypothesis `hxp`); no lemma needs a colour assumption beyond the one the C test reads. -/
+
+/-- one iteration of the loop for a black non-root `x` that is a left child -/
+theorem delete_iteration_left (f : Nat) (st : PT) (x : Nat) (h1 : x ≠ st.root) (h2 : (st.heap.get x).color = .black)
+    (h3 : x = (st.heap.get (st.heap.get x).parent).left) :
+    rebalDeleteLoop (f + 1) st x =
+      (let r1 := delCase1L st x
+       if (r1.1.heap.get (r1.1.heap.get r1.2).left).color = .black ∧
+          (r1.1.heap.get (r1.1.heap.get r1.2).right).color = .black then
+         rebalDeleteLoop f { r1.1 with heap := setColor r1.1.heap r1.2 .red }
+           ((setColor r1.1.heap r1.2 .red).get x).parent
+       else
+         let r3 := delCase3L r1.1 x r1.2
+         let st4 := delCase4L r3.1 x r3.2
+         (st4, st4.root)) :=
+  PTree.rebalDeleteLoop_left f st x h1 h2 h3
+
+/-- **case 1** (`w` red), `x` a left child: `w` black, parent red, rotate left at the parent; the new sibling
+is `w`'s former left child, `x->parent` is unchanged -/
+theorem delete_fixup_case1_left {st : PT} {T : ITree} {g : Path} {xp : Nat} {cp : Colour} {X : ITree} {kp vp w : Nat}
+    {wl : ITree} {kw vw : Nat} {wr : ITree}
+    (h : At st T g (.node xp cp X kp vp (.node w .red wl kw vw wr)))
+    {x : Nat} (hx : x = X.rid) (hxp : (st.heap.get x).parent = xp) :
+    ∃ st', delCase1L st x = (st', wl.rid) ∧
+      At st' T g (.node w .black (.node xp .red X kp vp wl) kw vw wr) ∧
+      (st'.heap.get x).parent = xp :=
+  PTree.delete_step_L_case1 h hx hxp
+
+/-- `w` black: case 1 does nothing -/
+theorem delete_fixup_case1_skip_left {st : PT} {T : ITree} {g : Path} {xp : Nat} {cp : Colour} {X : ITree} {kp vp w : Nat}
+    {wl : ITree} {kw vw : Nat} {wr : ITree}
+    (h : At st T g (.node xp cp X kp vp (.node w .black wl kw vw wr)))
+    {x : Nat} (hxp : (st.heap.get x).parent = xp) : delCase1L st x = (st, w) :=
+  PTree.delete_step_L_case1_skip h hxp
+
+/-- **case 2** (`w` black with two black children), `x` a left child: the test of the C code succeeds, `w`
+becomes red, the loop continues at the parent -/
+theorem delete_fixup_case2_left {st : PT} {T : ITree} {g : Path} {xp : Nat} {cp : Colour} {X : ITree} {kp vp w : Nat}
+    {cw : Colour} {wl : ITree} {kw vw : Nat} {wr : ITree}
+    (h : At st T g (.node xp cp X kp vp (.node w cw wl kw vw wr))) (hwl : wl.col = .black) (hwr : wr.col = .black)
+    {x : Nat} (hxp : (st.heap.get x).parent = xp) :
+    ((st.heap.get (st.heap.get w).left).color = .black ∧ (st.heap.get (st.heap.get w).right).color = .black) ∧
+    At { st with heap := setColor st.heap w .red } T g (.node xp cp X kp vp (.node w .red wl kw vw wr)) ∧
+    ((setColor st.heap w .red).get x).parent = xp :=
+  PTree.delete_step_L_case2 h hwl hwr hxp
+
+/-- **case 3** (`w` black, its far child black, its near child `l` a node — red in a red-black tree), `x` a left
+child: `l` black, `w` red, rotate right at `w`; the new sibling is `l`, `x->parent` is unchanged -/
+theorem delete_fixup_case3_left {st : PT} {T : ITree} {g : Path} {xp : Nat} {cp : Colour} {X : ITree} {kp vp w : Nat}
+    {cw : Colour} {l : Nat} {cl : Colour} {la : ITree} {kl vl : Nat} {lb : ITree} {kw vw : Nat} {wr : ITree}
+    (h : At st T g (.node xp cp X kp vp (.node w cw (.node l cl la kl vl lb) kw vw wr))) (hwr : wr.col = .black)
+    {x : Nat} (hx : x = X.rid) (hxp : (st.heap.get x).parent = xp) :
+    ∃ st', delCase3L st x w = (st', l) ∧
+      At st' T g (.node xp cp X kp vp (.node l .black la kl vl (.node w .red lb kw vw wr))) ∧
+      (st'.heap.get x).parent = xp :=
+  PTree.delete_step_L_case3 h hwr hx hxp
+
+/-- `w`'s far child red: case 3 does nothing -/
+theorem delete_fixup_case3_skip_left {st : PT} {T : ITree} {g : Path} {xp : Nat} {cp : Colour} {X : ITree} {kp vp w : Nat}
+    {cw : Colour} {wl : ITree} {kw vw : Nat} {wr : ITree}
+    (h : At st T g (.node xp cp X kp vp (.node w cw wl kw vw wr))) (hwr : wr.col = .red) (x : Nat) :
+    delCase3L st x w = (st, w) :=
+  PTree.delete_step_L_case3_skip h hwr x
+
+/-- **case 4** (`w`'s far child `r` a node — red in a red-black tree), `x` a left child: `w` takes the parent's
+colour, parent and `r` black, rotate left at the parent (then `x = root` ends the loop) -/
+theorem delete_fixup_case4_left {st : PT} {T : ITree} {g : Path} {xp : Nat} {cp : Colour} {X : ITree} {kp vp w : Nat}
+    {cw : Colour} {wl : ITree} {kw vw r : Nat} {cr : Colour} {ra : ITree} {kr vr : Nat} {rb : ITree}
+    (h : At st T g (.node xp cp X kp vp (.node w cw wl kw vw (.node r cr ra kr vr rb))))
+    {x : Nat} (hxp : (st.heap.get x).parent = xp) :
+    ∃ st', delCase4L st x w = st' ∧
+      At st' T g (.node w cp (.node xp .black X kp vp wl) kw vw (.node r .black ra kr vr rb)) :=
+  PTree.delete_step_L_case4 h hxp
+
+/-- one iteration of the loop for a black non-root `x` that is not a left child -/
+theorem delete_iteration_right (f : Nat) (st : PT) (x : Nat) (h1 : x ≠ st.root) (h2 : (st.heap.get x).color = .black)
+    (h3 : x ≠ (st.heap.get (st.heap.get x).parent).left) :
+    rebalDeleteLoop (f + 1) st x =
+      (let r1 := delCase1R st x
+       if (r1.1.heap.get (r1.1.heap.get r1.2).right).color = .black ∧
+          (r1.1.heap.get (r1.1.heap.get r1.2).left).color = .black then
+         rebalDeleteLoop f { r1.1 with heap := setColor r1.1.heap r1.2 .red }
+           ((setColor r1.1.heap r1.2 .red).get x).parent
+       else
+         let r3 := delCase3R r1.1 x r1.2
+         let st4 := delCase4R r3.1 x r3.2
+         (st4, st4.root)) :=
+  PTree.rebalDeleteLoop_right f st x h1 h2 h3
+
+/-- **case 1** (`w` red), `x` a right child: `w` black, parent red, rotate right at the parent; the new sibling
+is `w`'s former right child, `x->parent` is unchanged -/
+theorem delete_fixup_case1_right {st : PT} {T : ITree} {g : Path} {xp : Nat} {cp : Colour} {X : ITree} {kp vp w : Nat}
+    {wl : ITree} {kw vw : Nat} {wr : ITree}
+    (h : At st T g (.node xp cp (.node w .red wr kw vw wl) kp vp X))
+    {x : Nat} (hx : x = X.rid) (hxp : (st.heap.get x).parent = xp) :
+    ∃ st', delCase1R st x = (st', wl.rid) ∧
+      At st' T g (.node w .black wr kw vw (.node xp .red wl kp vp X)) ∧
+      (st'.heap.get x).parent = xp :=
+  PTree.delete_step_R_case1 h hx hxp
+
+/-- `w` black: case 1 does nothing -/
+theorem delete_fixup_case1_skip_right {st : PT} {T : ITree} {g : Path} {xp : Nat} {cp : Colour} {X : ITree} {kp vp w : Nat}
+    {wl : ITree} {kw vw : Nat} {wr : ITree}
+    (h : At st T g (.node xp cp (.node w .black wr kw vw wl) kp vp X))
+    {x : Nat} (hxp : (st.heap.get x).parent = xp) : delCase1R st x = (st, w) :=
+  PTree.delete_step_R_case1_skip h hxp
+
+/-- **case 2** (`w` black with two black children), `x` a right child: the test of the C code succeeds, `w`
+becomes red, the loop continues at the parent -/
+theorem delete_fixup_case2_right {st : PT} {T : ITree} {g : Path} {xp : Nat} {cp : Colour} {X : ITree} {kp vp w : Nat}
+    {cw : Colour} {wl : ITree} {kw vw : Nat} {wr : ITree}
+    (h : At st T g (.node xp cp (.node w cw wr kw vw wl) kp vp X)) (hwl : wl.col = .black) (hwr : wr.col = .black)
+    {x : Nat} (hxp : (st.heap.get x).parent = xp) :
+    ((st.heap.get (st.heap.get w).right).color = .black ∧ (st.heap.get (st.heap.get w).left).color = .black) ∧
+    At { st with heap := setColor st.heap w .red } T g (.node xp cp (.node w .red wr kw vw wl) kp vp X) ∧
+    ((setColor st.heap w .red).get x).parent = xp :=
+  PTree.delete_step_R_case2 h hwl hwr hxp
+
+/-- **case 3** (`w` black, its far child black, its near child `l` a node — red in a red-black tree), `x` a right
+child: `l` black, `w` red, rotate left at `w`; the new sibling is `l`, `x->parent` is unchanged -/
+theorem delete_fixup_case3_right {st : PT} {T : ITree} {g : Path} {xp : Nat} {cp : Colour} {X : ITree} {kp vp w : Nat}
+    {cw : Colour} {l : Nat} {cl : Colour} {la : ITree} {kl vl : Nat} {lb : ITree} {kw vw : Nat} {wr : ITree}
+    (h : At st T g (.node xp cp (.node w cw wr kw vw (.node l cl lb kl vl la)) kp vp X)) (hwr : wr.col = .black)
+    {x : Nat} (hx : x = X.rid) (hxp : (st.heap.get x).parent = xp) :
+    ∃ st', delCase3R st x w = (st', l) ∧
+      At st' T g (.node xp cp (.node l .black (.node w .red wr kw vw lb) kl vl la) kp vp X) ∧
+      (st'.heap.get x).parent = xp :=
+  PTree.delete_step_R_case3 h hwr hx hxp
+
+/-- `w`'s far child red: case 3 does nothing -/
+theorem delete_fixup_case3_skip_right {st : PT} {T : ITree} {g : Path} {xp : Nat} {cp : Colour} {X : ITree} {kp vp w : Nat}
+    {cw : Colour} {wl : ITree} {kw vw : Nat} {wr : ITree}
+    (h : At st T g (.node xp cp (.node w cw wr kw vw wl) kp vp X)) (hwr : wr.col = .red) (x : Nat) :
+    delCase3R st x w = (st, w) :=
+  PTree.delete_step_R_case3_skip h hwr x
+
+/-- **case 4** (`w`'s far child `r` a node — red in a red-black tree), `x` a right child: `w` takes the parent's
+colour, parent and `r` black, rotate right at the parent (then `x = root` ends the loop) -/
+theorem delete_fixup_case4_right {st : PT} {T : ITree} {g : Path} {xp : Nat} {cp : Colour} {X : ITree} {kp vp w : Nat}
+    {cw : Colour} {wl : ITree} {kw vw r : Nat} {cr : Colour} {ra : ITree} {kr vr : Nat} {rb : ITree}
+    (h : At st T g (.node xp cp (.node w cw (.node r cr rb kr vr ra) kw vw wl) kp vp X))
+    {x : Nat} (hxp : (st.heap.get x).parent = xp) :
+    ∃ st', delCase4R st x w = st' ∧
+      At st' T g (.node w cp (.node r .black rb kr vr ra) kw vw (.node xp .black wl kp vp X)) :=
+  PTree.delete_step_R_case4 h hxp
+
+/-! ## Non-vacuity of the hypotheses -/
+
+/-- the numeric comparator -/
+def numCmp (a b : Nat) : Int := (a : Int) - b
+theorem numCmp_total : TotalOrder numCmp := by
+  refine ⟨fun a b => ?_, fun a b => ?_, fun a b c => ?_⟩ <;> unfold numCmp <;> omega
+
+/-- a one-node table (built by `add` itself) satisfies the hypothesis bundle of `add_new_key` /
+`link_leaf` / `add_refused_unchanged` for the absent key 7 and of `add_existing_key` for the key 5 -/
+example :
+    Represents (add numCmp PTree.new 5 50 true) (.node 1 .black .nil 5 50 .nil) ∧
+    Tree.BST numCmp (ITree.node 1 .black .nil 5 50 .nil).erase ∧ Tree.RB (ITree.node 1 .black .nil 5 50 .nil).erase ∧
+    ITree.node 1 .black .nil 5 50 .nil ≠ .nil ∧
+    (ITree.node 1 .black .nil 5 50 .nil).subtree (Tree.leafPath numCmp 7 (ITree.node 1 .black .nil 5 50 .nil).erase) = .nil ∧
+    (ITree.node 1 .black .nil 5 50 .nil).subtree (Tree.leafPath numCmp 5 (ITree.node 1 .black .nil 5 50 .nil).erase) =
+      .node 1 .black .nil 5 50 .nil :=
+  ⟨add_first_key numCmp _ new_represents 5 50, by decide, by decide, by simp, by decide, by decide⟩
+
+/-- three ascending insertions (the third runs the loop through a recolouring-and-rotation case): the
+theorems chain, the final heap is well-formed with the expected content -/
+example : ∃ T, Represents (add numCmp (add numCmp (add numCmp PTree.new 5 50 true) 7 70 true) 9 90 true) T ∧
+    T.erase.toList = [(5, 50), (7, 70), (9, 90)] ∧ Tree.RB T.erase ∧ Tree.BST numCmp T.erase := by
+  have h1 := add_first_key numCmp _ new_represents 5 50
+  obtain ⟨T2, h2, l2, rb2, b2⟩ := PTree.add_wf numCmp numCmp_total h1 (by decide) (by decide) 7 70
+  obtain ⟨T3, h3, l3, rb3, b3⟩ := PTree.add_wf numCmp numCmp_total h2 b2 rb2 9 90
+  refine ⟨T3, h3, ?_, rb3, b3⟩
+  rw [l3, l2]; decide
+/-- a concrete five-node heap (ids 1–5, sentinel 0) -/
+def ex5heap : Heap :=
+  let h : Heap := {}
+  let h := h.set 0 { color := .black }
+  let h := h.set 1 { key := 20, color := .red, parent := 2 }
+  let h := h.set 2 { key := 30, color := .black, left := 1, parent := 4 }
+  let h := h.set 3 { key := 60, color := .red, parent := 5 }
+  let h := h.set 4 { key := 50, color := .black, left := 2, right := 5 }
+  h.set 5 { key := 80, color := .black, left := 3, parent := 4 }
+def ex5 : PT := { heap := ex5heap, root := 4, size := 5, fresh := 6 }
+def T5 : ITree :=
+  .node 4 .black (.node 2 .black (.node 1 .red .nil 20 0 .nil) 30 0 .nil) 50 0
+    (.node 5 .black (.node 3 .red .nil 60 0 .nil) 80 0 .nil)
+
+theorem ex5_represents : Represents ex5 T5 := by
+  refine ⟨rfl, ?_, by decide, ?_, ?_, rfl, by decide, by decide⟩
+  · simp [Rep, ex5, ex5heap, T5, Heap.get_set]
+  · simp [ex5, ex5heap, Heap.get_set]
+  · simp [ex5, ex5heap, Heap.get_set]
+
+/-- the hypothesis bundles of `remove_no_left_child` (node 1), `remove_no_right_child` (node 2) and
+`remove_two_children_successor_deeper` (node 4: its successor 3 is not its child) are satisfiable -/
+example :
+    Represents ex5 T5 ∧ Tree.BST numCmp T5.erase ∧ Tree.RB T5.erase ∧
+    T5.subtree [.L, .L] = .node 1 .red .nil 20 0 .nil ∧
+    T5.subtree [.L] = .node 2 .black (.node 1 .red .nil 20 0 .nil) 30 0 .nil ∧
+    T5.subtree [] = .node 4 .black (.node 2 .black (.node 1 .red .nil 20 0 .nil) 30 0 .nil) 50 0
+      (.node 5 .black (.node 3 .red .nil 60 0 .nil) 80 0 .nil) ∧
+    (ITree.node 3 .red .nil 60 0 .nil).subtree (Tree.treeMinPath (ITree.node 3 .red .nil 60 0 .nil).erase) =
+      .node 3 .red .nil 60 0 .nil :=
+  ⟨ex5_represents, by decide, by decide, rfl, rfl, rfl, rfl⟩
+
+/-- a three-node heap: the root has two children and its successor is its right child -/
+def ex3heap : Heap :=
+  let h : Heap := {}
+  let h := h.set 0 { color := .black }
+  let h := h.set 1 { key := 30, color := .red, parent := 2 }
+  let h := h.set 2 { key := 50, color := .black, left := 1, right := 3 }
+  h.set 3 { key := 70, color := .red, parent := 2 }
+def ex3 : PT := { heap := ex3heap, root := 2, size := 3, fresh := 4 }
+def T3 : ITree := .node 2 .black (.node 1 .red .nil 30 0 .nil) 50 0 (.node 3 .red .nil 70 0 .nil)
+theorem ex3_represents : Represents ex3 T3 := by
+  refine ⟨rfl, ?_, by decide, ?_, ?_, rfl, by decide, by decide⟩
+  · simp [Rep, ex3, ex3heap, T3, Heap.get_set]
+  · simp [ex3, ex3heap, Heap.get_set]
+  · simp [ex3, ex3heap, Heap.get_set]
+/-- the hypothesis bundle of `remove_two_children_successor_is_child` is satisfiable -/
+example : Represents ex3 T3 ∧ Tree.BST numCmp T3.erase ∧
+    T3.subtree [] = .node 2 .black (.node 1 .red .nil 30 0 .nil) 50 0 (.node 3 .red .nil 70 0 .nil) ∧
+    ITree.node 1 .red .nil 30 0 .nil ≠ .nil :=
+  ⟨ex3_represents, by decide, rfl, by simp⟩
+
+/-- removing the red leaf 1 of the five-node heap goes through `remove_node_no_fixup` (its hypothesis
+`colour that leaves = red` holds) -/
+example : (removeSplice ex5 1).2.2 = .red := by
+  have := (remove_no_left_child numCmp numCmp_total ex5 T5 ex5_represents (by decide) [.L, .L]
+    (z := 1) (cz := .red) (zk := 20) (zv := 0) (zr := .nil) rfl).1
+  rw [this]
+/-- the concrete heaps are well-formed -/
+example : WF ex5 ∧ WF ex3 := ⟨⟨_, ex5_represents⟩, ⟨_, ex3_represents⟩⟩
+
+/-- the hypothesis bundles of the delete fix-up lemmas are satisfiable: in the five-node heap node 2 (a left
+child of 4) has the black sibling 5 whose near child 3 is red and far child empty (`delete_fixup_case3_left`;
+mirrored, node 5 has the sibling 2 whose far child 1 is red: `delete_fixup_case4_right`); in the three-node
+heap node 1 has the red sibling 3 (`delete_fixup_case1_left`) with two empty, hence black, children
+(`delete_fixup_case2_left`) -/
+example :
+    At ex5 T5 [] (.node 4 .black (.node 2 .black (.node 1 .red .nil 20 0 .nil) 30 0 .nil) 50 0
+      (.node 5 .black (.node 3 .red .nil 60 0 .nil) 80 0 .nil)) ∧
+    (ex5.heap.get 2).parent = 4 ∧ (ex5.heap.get 5).parent = 4 ∧
+    At ex3 T3 [] (.node 2 .black (.node 1 .red .nil 30 0 .nil) 50 0 (.node 3 .red .nil 70 0 .nil)) ∧
+    (ex3.heap.get 1).parent = 2 :=
+  ⟨At.of_represents ex5_represents [] (by simp [T5]), by simp [ex5, ex5heap, Heap.get_set],
+   by simp [ex5, ex5heap, Heap.get_set], At.of_represents ex3_represents [] (by simp [T3]),
+   by simp [ex3, ex3heap, Heap.get_set]⟩
 
 end CC.Properties.C03PTree
